@@ -94,8 +94,9 @@ def dispatch(ctx):
 
 def const_model(ex, st, c):
     m = re.match(r'^tracing::Level::(\w+)$', c) or re.match(r'^Level::(\w+)$', c)
-    if m:
-        o = Obj('tracing::Level', kind='const'); o.attrs['const'] = c
+    if m and m.group(1) in ('TRACE', 'DEBUG', 'INFO', 'WARN', 'ERROR'):
+        o = Obj('tracing::Level'); inner = Obj('tracing_core::metadata::LevelInner')
+        inner.discr = ['TRACE', 'DEBUG', 'INFO', 'WARN', 'ERROR'].index(m.group(1)); o.fields[(None, 0)] = inner
         return o
     m = re.match(r'^core::num::<impl (\w+)>::(MAX|MIN|BITS)$', c)
     if m and m.group(1) in INT_TY:
@@ -145,7 +146,7 @@ def m_identity_future(ctx):
 
 @model(r'^Pin::<.*>::new_unchecked$|^Pin::<.*>::new$|^std::pin::Pin::<.*>::new')
 def m_pin_new(ctx):
-    o = Obj('Pin', kind='pin'); o.fields[('in', 0)] = ctx.args[0]
+    o = Obj('Pin', kind='pin'); o.fields[('in', 0)] = ctx.args[0]; o.fields[(None, 0)] = ctx.args[0]
     return [(None, o)]
 
 
@@ -183,7 +184,7 @@ def m_poll(ctx):
         return [(a[0], (lambda s2, v=a[1]: ready(v(s2) if callable(v) else v)), a[2] if len(a) > 2 else None) for a in alts]
     body = ex.coroutine_body(fut)
     holder = Obj('fut-holder', kind='cell'); holder.fields[('*', 0)] = fut
-    pin = Obj('Pin', kind='pin'); pin.fields[('in', 0)] = Ref(('field', holder, ('*', 0, '?')))
+    pin = Obj('Pin', kind='pin'); pin.fields[('in', 0)] = Ref(('field', holder, ('*', 0, '?'))); pin.fields[(None, 0)] = pin.fields[('in', 0)]
     ex.push(st, body, [pin, Obj('Context')], ctx.dest, ctx.nxt)
     return PUSHED
 
